@@ -1,6 +1,38 @@
--- shard 8 of the closeness / tick-gap sweep (C06 (c), (e)): |tick| in [262144, 294912)
+-- shard 8 of the closeness / tick-gap sweep (C06 (c), (e)): |tick| in [262144, 294912), 16 blocks of 2^11
 import Proofs.Lemmas.ClosePred
 namespace Demeter.TickClose
 set_option maxRecDepth 100000 in
-theorem close_shard_08 : chkN closeSweepPred 262144 shardBits = true := by decide +kernel
+theorem close_blk_262144 : chkN closeSweepPred 262144 11 = true := by decide +kernel
+set_option maxRecDepth 100000 in
+theorem close_blk_264192 : chkN closeSweepPred 264192 11 = true := by decide +kernel
+set_option maxRecDepth 100000 in
+theorem close_blk_266240 : chkN closeSweepPred 266240 11 = true := by decide +kernel
+set_option maxRecDepth 100000 in
+theorem close_blk_268288 : chkN closeSweepPred 268288 11 = true := by decide +kernel
+set_option maxRecDepth 100000 in
+theorem close_blk_270336 : chkN closeSweepPred 270336 11 = true := by decide +kernel
+set_option maxRecDepth 100000 in
+theorem close_blk_272384 : chkN closeSweepPred 272384 11 = true := by decide +kernel
+set_option maxRecDepth 100000 in
+theorem close_blk_274432 : chkN closeSweepPred 274432 11 = true := by decide +kernel
+set_option maxRecDepth 100000 in
+theorem close_blk_276480 : chkN closeSweepPred 276480 11 = true := by decide +kernel
+set_option maxRecDepth 100000 in
+theorem close_blk_278528 : chkN closeSweepPred 278528 11 = true := by decide +kernel
+set_option maxRecDepth 100000 in
+theorem close_blk_280576 : chkN closeSweepPred 280576 11 = true := by decide +kernel
+set_option maxRecDepth 100000 in
+theorem close_blk_282624 : chkN closeSweepPred 282624 11 = true := by decide +kernel
+set_option maxRecDepth 100000 in
+theorem close_blk_284672 : chkN closeSweepPred 284672 11 = true := by decide +kernel
+set_option maxRecDepth 100000 in
+theorem close_blk_286720 : chkN closeSweepPred 286720 11 = true := by decide +kernel
+set_option maxRecDepth 100000 in
+theorem close_blk_288768 : chkN closeSweepPred 288768 11 = true := by decide +kernel
+set_option maxRecDepth 100000 in
+theorem close_blk_290816 : chkN closeSweepPred 290816 11 = true := by decide +kernel
+set_option maxRecDepth 100000 in
+theorem close_blk_292864 : chkN closeSweepPred 292864 11 = true := by decide +kernel
+theorem close_shard_08 : chkN closeSweepPred 262144 shardBits = true :=
+  (chkN_join _ 262144 14 (chkN_join _ 262144 13 (chkN_join _ 262144 12 (chkN_join _ 262144 11 close_blk_262144 close_blk_264192) (chkN_join _ 266240 11 close_blk_266240 close_blk_268288)) (chkN_join _ 270336 12 (chkN_join _ 270336 11 close_blk_270336 close_blk_272384) (chkN_join _ 274432 11 close_blk_274432 close_blk_276480))) (chkN_join _ 278528 13 (chkN_join _ 278528 12 (chkN_join _ 278528 11 close_blk_278528 close_blk_280576) (chkN_join _ 282624 11 close_blk_282624 close_blk_284672)) (chkN_join _ 286720 12 (chkN_join _ 286720 11 close_blk_286720 close_blk_288768) (chkN_join _ 290816 11 close_blk_290816 close_blk_292864))))
 end Demeter.TickClose
